@@ -815,3 +815,54 @@ def r04_13(ctx):
         ok, _ = must_on_all_paths(f.node.body, _is_invalidate)
         ctx.check(ok, "Stage.%s invalidates the cached transcription" % name, detail="constraints of the previous declaration keep restricting (or new ones are ignored by) the next solve",
                   expected="self._set_transcribed(False)", found="missing", fi=f)
+
+
+@rule("R04.14", min_instances=20, desc="algebraic values handed to the constraint evaluators are those of the addressed point: Z[k] / zk content per method (layout interpreter, shared with C02/C07)")
+def r04_14(ctx):
+    from .layout_rules import collocation_content
+    collocation_content(ctx)
+
+
+@rule("R04.15", min_instances=3, desc="shooting with a DAE: the algebraic value paired with integrator point n is the value AT point n (start of step n), like the state it is evaluated with")
+def r04_15(ctx):
+    """discrete_system returns per-step columns: Xi column j and Zi column j are consumed at the same index
+    (xk[k*M+j], zk[k*M+j]; Z[0] = Zi[:,0]).  Xi is built from a list that starts with the start state, so column j is
+    the state at the START of sub-step j; the algebraic list must be aligned the same way."""
+    from .. import algebra as AL
+    from ..norm import list_events
+    prog = ctx.prog
+    f = prog.own_method("SamplingMethod", "discrete_system")
+    sc = ctx.scope(f)
+    call, ins, outs, ni, no = AL.function_ctor(f)
+    out_of = dict(zip(no, outs))
+    lists = {}
+    for nm in ("Xi", "Zi"):
+        o = out_of.get(nm)
+        if not (isinstance(o, ast.Call) and ast.unparse(o.func) == "hcat" and o.args and isinstance(o.args[0], ast.Name)):
+            raise AnalysisError("discrete_system: output %s is not hcat(<list>)" % nm)
+        ev = list_events(sc, o.args[0].id, key=lambda t: ast.unparse(t))
+        init = [e for e in ev if e[0] == "set"]
+        apps = [e for e in ev if e[0] == "append"]
+        n0 = None
+        if len(init) == 1:
+            try:
+                n0 = len(ast.literal_eval(init[0][1])) if init[0][1] == "[]" else len(ast.parse(init[0][1], mode="eval").body.elts)
+            except Exception:
+                n0 = None
+        lists[nm] = (o.args[0].id, n0, [a[1][0] for a in apps])
+    okx = lists["Xi"][1] == 1 and len(lists["Xi"][2]) == 1 and lists["Xi"][2][0].endswith("['xf']")
+    ctx.check(okx, "discrete_system Xi column j is the state at the start of sub-step j", detail="state columns", expected="X = [X0]; per step X.append(res['xf'])", found=str(lists["Xi"]), fi=f)
+    zname, z0, zapps = lists["Zi"]
+    aligned = z0 == 1 and len(zapps) == 1
+    ctx.check(aligned, "discrete_system Zi column j", detail="algebraic value of the END of sub-step j stored in the column of its START (Z[0] and zk[n] are one integrator step late)",
+              expected="a list that starts with the algebraic value at the step start, like X = [X0]", found="%s = %s; per step %s.append(%s)" % (zname, "[]" if z0 == 0 else "[..%s]" % z0, zname, ", ".join(zapps)), fi=f,
+              sample={"Zi": "%s starts with %s entries, one %s per step" % (zname, z0, ", ".join(zapps))})
+    # the consumers do use the same index for both
+    for cname in ("MultipleShooting", "SingleShooting"):
+        g = prog.own_method(cname, "add_constraints")
+        ext = {}
+        for c in walk_no_nested(g.node):
+            if is_call_to(c, "extend") and ast.unparse(c.func.value) in ("self.xk", "self.zk") and c.args and isinstance(c.args[0], ast.ListComp):
+                ext[ast.unparse(c.func.value)] = Norm(None).key(c.args[0]).replace("xk_temp", "@").replace("zk_temp", "@")
+        ctx.check(len(ext) == 2 and ext.get("self.xk") == ext.get("self.zk"), "%s stores state and algebraic columns under the same integrator-point index" % cname, detail="xk / zk indexing differs",
+                  expected="xk.extend([Xi[:,i] for i in range(M)]); zk.extend([Zi[:,i] for i in range(M)])", found=str(ext), fi=g)
